@@ -16,21 +16,30 @@
 (* - at every kill point a restart recovers the acknowledged dataset.      *)
 (* Deviation RecoverBak = FALSE is the design as coded at the pinned       *)
 (* commit (nothing recovers -bak when `live` is missing).                  *)
+(* Rounds: after a Kill the process is restarted (Restart) on what the     *)
+(* kill left in the directory - including a leftover `-shrink` file - and  *)
+(* may write and shrink again.  Start creates the rewrite target with      *)
+(* os.Create, i.e. truncated (TruncNew); without the truncation the new    *)
+(* rewrite is written OVER the leftover, whose tail survives when the new  *)
+(* content is shorter.                                                     *)
 (***************************************************************************)
 EXTENDS Integers, Sequences, FiniteSets, TLC
 
 CONSTANTS NKeys, NIds, MaxKeys, MaxIds, MaxWrites,
           WriterOps,     \* subset of {"set", "del", "drop", "rename", "append"}
-          RecoverBak     \* start-up restores -bak when the live file is missing
+          RecoverBak,    \* start-up restores -bak when the live file is missing
+          MaxRounds,     \* process lifetimes (1: no Restart)
+          TruncNew       \* Start truncates a leftover rewrite target (as coded: os.Create)
 
 Keys == 1..NKeys
 Ids == 1..NIds
 Absent == 0
 
-VARIABLES mem, live, newf, bak, slog, shrinking, pc, keys, nextkey, keysdone, nextid, idsdone, nw, recovered
-vars == <<mem, live, newf, bak, slog, shrinking, pc, keys, nextkey, keysdone, nextid, idsdone, nw, recovered>>
-\* files: a sequence of commands, or <<"absent">>
-NoFile == <<"absent">>
+\* round: process lifetime; stale: content of a leftover rewrite target that the current rewrite is written over
+VARIABLES mem, live, newf, bak, slog, shrinking, pc, keys, nextkey, keysdone, nextid, idsdone, nw, recovered, round, stale
+vars == <<mem, live, newf, bak, slog, shrinking, pc, keys, nextkey, keysdone, nextid, idsdone, nw, recovered, round, stale>>
+\* files: a sequence of commands, or NoFile
+NoFile == <<[op |-> "absent"]>>
 
 EmptyCol == [i \in Ids |-> Absent]
 EmptyMem == [k \in Keys |-> EmptyCol]
@@ -59,9 +68,14 @@ Init == /\ mem \in {m \in [Keys -> [Ids -> {Absent, 1}]] : \A k \in Keys : Exist
         /\ live = Render(mem, Present(mem)) /\ newf = NoFile /\ bak = NoFile
         /\ slog = <<>> /\ shrinking = FALSE /\ pc = "idle" /\ keys = <<>>
         /\ nextkey = 1 /\ keysdone = FALSE /\ nextid = 1 /\ idsdone = FALSE /\ nw = 0 /\ recovered = mem
+        /\ round = 1 /\ stale = <<>>
+
+\* what the file holds when `w` was written from offset 0 over a file that held `old`
+Overlay(w, old) == IF Len(w) >= Len(old) THEN w ELSE w \o SubSeq(old, Len(w) + 1, Len(old))
 
 Start == /\ pc = "idle" /\ shrinking' = TRUE /\ slog' = <<>> /\ newf' = <<>> /\ pc' = "loadkeys"
-         /\ UNCHANGED <<mem, live, bak, keys, nextkey, keysdone, nextid, idsdone, nw, recovered>>
+         /\ stale' = IF TruncNew \/ newf = NoFile THEN <<>> ELSE newf
+         /\ UNCHANGED <<mem, live, bak, keys, nextkey, keysdone, nextid, idsdone, nw, recovered, round>>
 
 RECURSIVE SortedSeq(_)
 SortedSeq(S) == IF S = {} THEN <<>> ELSE
@@ -78,7 +92,7 @@ LoadKeys == /\ pc = "loadkeys"
                     ELSE /\ keys' = all /\ keysdone' = TRUE /\ UNCHANGED nextkey
                          /\ pc' = IF all = <<>> THEN "final1" ELSE "loadids"
                          /\ nextid' = 1 /\ idsdone' = FALSE
-            /\ UNCHANGED <<mem, live, newf, bak, slog, shrinking, nw, recovered>>
+            /\ UNCHANGED <<mem, live, newf, bak, slog, shrinking, nw, recovered, round, stale>>
 
 LoadIds == /\ pc = "loadids"
            /\ IF idsdone
@@ -92,18 +106,18 @@ LoadIds == /\ pc = "loadids"
                       /\ IF Len(present) > MaxIds THEN nextid' = present[MaxIds + 1] /\ idsdone' = FALSE
                          ELSE idsdone' = TRUE /\ UNCHANGED nextid
                       /\ UNCHANGED <<keys, pc>>
-           /\ UNCHANGED <<mem, live, bak, slog, shrinking, nextkey, keysdone, nw, recovered>>
+           /\ UNCHANGED <<mem, live, bak, slog, shrinking, nextkey, keysdone, nw, recovered, round, stale>>
 
 \* the final critical section, split at the instrumentation points (all under the lock: no Write in between,
 \* but a Kill may hit between any two)
 Final1 == /\ pc = "final1" /\ newf' = newf \o slog /\ pc' = "rename1"
-          /\ UNCHANGED <<mem, live, bak, slog, shrinking, keys, nextkey, keysdone, nextid, idsdone, nw, recovered>>
+          /\ UNCHANGED <<mem, live, bak, slog, shrinking, keys, nextkey, keysdone, nextid, idsdone, nw, recovered, round, stale>>
 Rename1 == /\ pc = "rename1" /\ bak' = live /\ live' = NoFile /\ pc' = "rename2"
-           /\ UNCHANGED <<mem, newf, slog, shrinking, keys, nextkey, keysdone, nextid, idsdone, nw, recovered>>
-Rename2 == /\ pc = "rename2" /\ live' = newf /\ newf' = NoFile /\ pc' = "reopen"
-           /\ UNCHANGED <<mem, bak, slog, shrinking, keys, nextkey, keysdone, nextid, idsdone, nw, recovered>>
+           /\ UNCHANGED <<mem, newf, slog, shrinking, keys, nextkey, keysdone, nextid, idsdone, nw, recovered, round, stale>>
+Rename2 == /\ pc = "rename2" /\ live' = Overlay(newf, stale) /\ newf' = NoFile /\ pc' = "reopen" /\ stale' = <<>>
+           /\ UNCHANGED <<mem, bak, slog, shrinking, keys, nextkey, keysdone, nextid, idsdone, nw, recovered, round>>
 Reopen == /\ pc = "reopen" /\ bak' = NoFile /\ shrinking' = FALSE /\ pc' = "done"
-          /\ UNCHANGED <<mem, live, newf, slog, keys, nextkey, keysdone, nextid, idsdone, nw, recovered>>
+          /\ UNCHANGED <<mem, live, newf, slog, keys, nextkey, keysdone, nextid, idsdone, nw, recovered, round, stale>>
 
 Cmds == {[op |-> "set", k |-> k, id |-> i, v |-> 2] : k \in Keys, i \in Ids}
    \cup {[op |-> "del", k |-> k, id |-> i] : k \in Keys, i \in Ids}
@@ -113,21 +127,31 @@ Cmds == {[op |-> "set", k |-> k, id |-> i, v |-> 2] : k \in Keys, i \in Ids}
 Updated(m, c) == IF c.op \in {"set", "append"} THEN TRUE ELSE Apply(m, c) # m
 
 InLock == pc \in {"rename1", "rename2", "reopen"}      \* the swap holds the server lock
-Write(c) == /\ nw < MaxWrites /\ pc \notin {"idle", "done", "dead"} /\ ~InLock /\ c.op \in WriterOps /\ Updated(mem, c)
+Write(c) == /\ nw < MaxWrites /\ pc \notin {"done", "dead"} /\ (pc = "idle" => round > 1) /\ ~InLock
+            /\ c.op \in WriterOps /\ Updated(mem, c)
             /\ mem' = Apply(mem, c)
             /\ live' = Append(live, c)
             /\ slog' = IF shrinking THEN Append(slog, c) ELSE slog
             /\ nw' = nw + 1
-            /\ UNCHANGED <<newf, bak, shrinking, pc, keys, nextkey, keysdone, nextid, idsdone, recovered>>
+            /\ UNCHANGED <<newf, bak, shrinking, pc, keys, nextkey, keysdone, nextid, idsdone, recovered, round, stale>>
 
 \* process killed now: what does a restart recover?
 Kill == /\ pc \notin {"idle", "done", "dead"}
         /\ recovered' = IF live # NoFile THEN FileState(live)
                         ELSE IF RecoverBak /\ bak # NoFile THEN FileState(bak) ELSE EmptyMem
         /\ pc' = "dead"
-        /\ UNCHANGED <<mem, live, newf, bak, slog, shrinking, keys, nextkey, keysdone, nextid, idsdone, nw>>
+        /\ UNCHANGED <<mem, live, newf, bak, slog, shrinking, keys, nextkey, keysdone, nextid, idsdone, nw, round, stale>>
 
-Next == Start \/ LoadKeys \/ LoadIds \/ Final1 \/ Rename1 \/ Rename2 \/ Reopen \/ Kill \/ \E c \in Cmds : Write(c)
+\* the next process: loads `live` (or the recovered backup), keeps whatever else the kill left in the directory
+Restart == /\ pc = "dead" /\ round < MaxRounds /\ round' = round + 1
+           /\ live' = IF live # NoFile THEN live ELSE IF RecoverBak /\ bak # NoFile THEN bak ELSE <<>>
+           /\ bak' = IF live = NoFile /\ RecoverBak THEN NoFile ELSE bak
+           /\ mem' = FileState(live') /\ recovered' = FileState(live')
+           /\ pc' = "idle" /\ shrinking' = FALSE /\ slog' = <<>> /\ keys' = <<>>
+           /\ nextkey' = 1 /\ keysdone' = FALSE /\ nextid' = 1 /\ idsdone' = FALSE /\ stale' = <<>>
+           /\ UNCHANGED <<newf, nw>>
+
+Next == Start \/ LoadKeys \/ LoadIds \/ Final1 \/ Rename1 \/ Rename2 \/ Reopen \/ Kill \/ Restart \/ \E c \in Cmds : Write(c)
 Spec == Init /\ [][Next]_vars
 
 ShrunkEquivalent == pc = "done" => FileState(live) = mem
